@@ -487,7 +487,7 @@ func (w *World) pendingFuture() int {
 			n += len(c.sendq)
 		}
 	}
-	return n + w.apiBusy
+	return n + w.apiBusy + w.S.Sleepers()
 }
 
 //go:norace
